@@ -393,3 +393,32 @@ def _padd(a, b, sign):
     for m, c in b.items():
         out[m] = out.get(m, 0) + sign * c
     return {m: c for m, c in out.items() if c}
+
+
+def peel_cond(e):
+    """normalise a branch condition: strip (x != 0), (x == 0), xor true, zext/trunc wrappers.
+    returns (core expression, polarity) with: condition true  <=>  (core is non-zero) == polarity"""
+    pol = True
+    while True:
+        e0 = e
+        if e[0] in ('ext', 'cast'):
+            e = e[3] if e[0] == 'ext' else e[2]
+        elif e[0] == 'trunc':
+            e = e[2]
+        elif e[0] == 'icmp' and e[1] in ('ne', 'eq') and strip_casts(e[3]) in (('const', 0),):
+            if e[1] == 'eq':
+                pol = not pol
+            e = e[2]
+        elif e[0] == 'bin' and e[1] == 'xor' and strip_casts(e[3]) in (('const', 1), ('const', -1)):
+            pol = not pol
+            e = e[2]
+        if e is e0:
+            return e, pol
+
+
+def is_null_test(e):
+    """(pointer expr, polarity) if e is `p == NULL` / `p != NULL` (polarity: condition true <=> p non-null)"""
+    core, pol = peel_cond(e)
+    if core[0] == 'icmp' and core[1] in ('eq', 'ne') and strip_casts(core[3]) == ('null',):
+        return strip_casts(core[2]), (pol if core[1] == 'ne' else not pol)
+    return None, None
